@@ -71,7 +71,8 @@ class Executor:
             self._sheets_size[sheet]['last_row'] = max(row, self._sheets_size[sheet]['last_row'])
             self._sheets_size[sheet]['last_column'] = max(column, self._sheets_size[sheet]['last_column'])
 
-        self._cells = {*cells, *self._cells}
+        # one cell per address, the most recently supplied value replaces the earlier ones
+        self._cells = set({cell.uid: cell for cell in [*self._cells, *cells]}.values())
         self._cells_have_been_changed = True
         return self
 
